@@ -1,13 +1,46 @@
 """C07 - hash_hypergraph is a canonical fingerprint: equal content iff equal hash."""
+import json
+
 from checks.containers import run_container
 from harness.verdict import Result
+
+
+def canon(st):
+    return json.dumps({"n": sorted(st["nodes"]), "e": sorted(json.dumps(e, sort_keys=True) for e in st["edges"]),
+                       "m": sorted(json.dumps(x, sort_keys=True) for x in st["nmd"]), "h": st["hmd"], "w": st["wtd"]},
+                      sort_keys=True)
+
+
+def diamonds(res, kind, traces, meta):
+    """how often the same content was reached through different histories (equality direction) and how
+    many distinct contents were compared (difference direction) - measured, for the evidence"""
+    by_content = {}
+    for t, m in zip(traces, meta):
+        hist = {}
+        for ev in t:
+            oid = ev["obj"]
+            if ev["op"]["op"] == "copy":
+                hist[oid] = list(hist.get(ev["op"]["from"], []))
+            hist.setdefault(oid, [])
+            if ev["op"]["op"] not in ("hash", "new", "copy"):
+                hist[oid].append(json.dumps(ev["op"], sort_keys=True))
+            if "digest" in ev:
+                st = [p for p in ev["st"] if p[0] == oid][0][1]
+                key = (m["family"], m["n"], canon(st))
+                by_content.setdefault(key, set()).add(tuple(hist[oid]))
+    multi = sum(1 for h in by_content.values() if len(h) >= 2)
+    res.cov(distinct_contents_hashed=len(by_content), contents_reached_by_2_or_more_histories=multi,
+            history_content_pairs=sum(len(h) for h in by_content.values()))
+    ex = next((list(h)[:2] for h in by_content.values() if len(h) >= 2 and all(len(x) >= 2 for x in list(h)[:2])), None)
+    if ex:
+        res.sample({"kind": kind, "two_histories_same_content": [[json.loads(o) for o in h][:8] for h in ex]})
 
 
 def run(tier, seed):
     res = Result("C07", tier, seed, "model_checking")
     for kind in ["hg", "dir", "temp", "mux"]:
         run_container("C07", kind, tier, seed, res=res, finish=False, do_explore=(kind == "hg"), queries=False,
-                      plan={"hash": 1.0}, own_ops={"hash"}, scale=0.4 if tier == "quick" else 1.0)
+                      plan={"hash": 1.0}, own_ops={"hash"}, scale=0.4 if tier == "quick" else 1.0, on_traces=diamonds)
     return res.finish()
 
 
